@@ -170,14 +170,14 @@ def check_case(ref, W, fs, s, baseline=None):
     from spil import Sid
     sid = Sid(s)
     typed_direct = typed
-    if sid and not sid.is_search() and "?" not in sid.string and sid.string.split("/")[-1] not in W.ref.alias:
+    if sid and not sid.is_search() and not W.ref.is_search_text(s) and "?" not in sid.string and sid.string.split("/")[-1] not in W.ref.alias:
         typed_direct = [(sid.type, sid.string)]
     exp_p, same_pos = W.store.do_find("paths", typed_direct)
     exp_a, _ = W.store.do_find("all", typed)
     exp_l, _ = W.store.do_find("list", typed_direct, W.store.list_for_paths())
     last = any(">" in st.split("/") for _, st in typed)
-    if last and not same_pos:
-        return out, "last-at-different-positions(outside statement)", ans
+    if last and (not same_pos or not all(">" in st.split("/") for _, st in typed)):
+        return out, "last-not-at-one-common-position(outside statement)", ans
     names = W.names
     if ans[names[0]] != ans[names[-1]]:
         bad("local-and-server-differ", [sorted(ans[names[0]] - ans[names[-1]])[:4], sorted(ans[names[-1]] - ans[names[0]])[:4]], "equal")
@@ -197,7 +197,8 @@ def check_case(ref, W, fs, s, baseline=None):
             blind = extra and not (ans[names[0]] - lst_r) and all(W.ref.natural(e)[0] not in types for e in extra)
             bad("list-and-paths-disagree" + ("/list-matches-entries-of-sibling-types" if blind else ""), [sorted(lst_r - ans[names[0]])[:4], sorted(ans[names[0]] - lst_r)[:4]], "equal on path-backed types")
     if ans["all"] != exp_a:
-        bad("all-differs-from-reference" + ("/last" if last else ""), [sorted(ans["all"] - exp_a)[:4], sorted(exp_a - ans["all"])[:4]], sorted(exp_a)[:4])
+        srcs = {(W.sources.get(t) or {}).get("key", "paths") for t, _ in typed}
+        bad("all-differs-from-reference" + ("/last" if last else "") + ("/typed-searches-served-by-different-sources" if last and len(srcs) > 1 else ""), [sorted(ans["all"] - exp_a)[:4], sorted(exp_a - ans["all"])[:4]], sorted(exp_a)[:4])
     if baseline is not None:
         for name in fs:
             if baseline.get(name) is not None and ans[name] != baseline[name]:
